@@ -1084,8 +1084,17 @@ pub fn gen_macros(rec: &mut Recorder, _rng: &mut StdRng, _n: usize) {
         rec.emit(json!({"ev": "eval", "slot": 0, "src": cps("x"), "level": "string", "ek": "value", "mode": "imm",
                         "res": res_json(&r2), "post": post, "log": []}));
     };
+    // the creating form returns the context only on success: on an error the event says the context is lost
+    let created = |rec: &mut Recorder, entries: Vec<J>, r: Result<HashMapContext<DefaultNumericTypes>, E>| match r {
+        Ok(c) => emit(rec, entries, Ok(()), &c),
+        Err(e) => {
+            let rr: Result<Result<V, E>, String> = Ok(Err(e));
+            rec.emit(json!({"ev": "context_map", "slot": 0, "entries": entries, "res": res_json(&rr), "lost": true,
+                            "post": {"nb": false, "vars": [], "funcs": []}}));
+        },
+    };
     // 1. values of every kind and a function, trailing comma
-    let c: HashMapContext<DefaultNumericTypes> = context_map! {
+    let r: Result<HashMapContext<DefaultNumericTypes>, E> = context_map! {
         "x" => int 8,
         "y" => float 1.5,
         "s" => Value::from("ab"),
@@ -1093,19 +1102,34 @@ pub fn gen_macros(rec: &mut Recorder, _rng: &mut StdRng, _n: usize) {
         "t" => Value::from(vec![Value::from_int(1), Value::from("z")]),
         "e" => Value::Empty,
         "f" => Function::new(|_| Ok(Value::from_int(42))),
-    }
-    .unwrap();
-    emit(rec, vec![entry("x", false, Value::Int(8)), entry("y", false, Value::Float(1.5)), entry("s", false, Value::String("ab".into())),
-                   entry("b", false, Value::Boolean(true)), entry("t", false, Value::Tuple(vec![Value::Int(1), Value::String("z".into())])),
-                   entry("e", false, Value::Empty), entry("f", true, Value::Int(42))], Ok(()), &c);
+    };
+    created(rec, vec![entry("x", false, Value::Int(8)), entry("y", false, Value::Float(1.5)), entry("s", false, Value::String("ab".into())),
+                      entry("b", false, Value::Boolean(true)), entry("t", false, Value::Tuple(vec![Value::Int(1), Value::String("z".into())])),
+                      entry("e", false, Value::Empty), entry("f", true, Value::Int(42))], r);
     // 2. no trailing comma, a function sharing the name of a variable, a repeated key of the same type
-    let c: HashMapContext<DefaultNumericTypes> = context_map! {
+    let r: Result<HashMapContext<DefaultNumericTypes>, E> = context_map! {
         "x" => int 1,
         "x" => Function::new(|_| Ok(Value::from_int(42))),
         "x" => int 2
-    }
-    .unwrap();
-    emit(rec, vec![entry("x", false, Value::Int(1)), entry("x", true, Value::Int(42)), entry("x", false, Value::Int(2))], Ok(()), &c);
+    };
+    created(rec, vec![entry("x", false, Value::Int(1)), entry("x", true, Value::Int(42)), entry("x", false, Value::Int(2))], r);
+    // 2b. each kind of entry in the last position WITHOUT a trailing comma (the four termination rules of the macro)
+    let r: Result<HashMapContext<DefaultNumericTypes>, E> = context_map! { "x" => int 1, "n" => int 2 };
+    created(rec, vec![entry("x", false, Value::Int(1)), entry("n", false, Value::Int(2))], r);
+    let r: Result<HashMapContext<DefaultNumericTypes>, E> = context_map! { "x" => float 1.5, "n" => float 2.5 };
+    created(rec, vec![entry("x", false, Value::Float(1.5)), entry("n", false, Value::Float(2.5))], r);
+    let r: Result<HashMapContext<DefaultNumericTypes>, E> = context_map! { "x" => int 1, "g" => Function::new(|_| Ok(Value::from_int(42))) };
+    created(rec, vec![entry("x", false, Value::Int(1)), entry("g", true, Value::Int(42))], r);
+    let r: Result<HashMapContext<DefaultNumericTypes>, E> = context_map! { "x" => Value::from("s"), "n" => Value::from(false) };
+    created(rec, vec![entry("x", false, Value::String("s".into())), entry("n", false, Value::Boolean(false))], r);
+    // 2c. a single entry of each kind, with and without the comma
+    let r: Result<HashMapContext<DefaultNumericTypes>, E> = context_map! { "x" => int 7 };
+    created(rec, vec![entry("x", false, Value::Int(7))], r);
+    let r: Result<HashMapContext<DefaultNumericTypes>, E> = context_map! { "x" => float 2.5, };
+    created(rec, vec![entry("x", false, Value::Float(2.5))], r);
+    // 2d. the creating form with a type conflict: the first error is returned and the context is dropped
+    let r: Result<HashMapContext<DefaultNumericTypes>, E> = context_map! { "x" => int 1, "x" => float 2.5, "n" => int 2 };
+    created(rec, vec![entry("x", false, Value::Int(1)), entry("x", false, Value::Float(2.5)), entry("n", false, Value::Int(2))], r);
     // 3. a type conflict in the middle: later entries are still applied, the first error is returned
     let mut c = HashMapContext::<DefaultNumericTypes>::new();
     let r: Result<(), E> = context_map!((&mut c) "x" => int 1, "x" => Value::from("s"), "y" => int 2, "x" => float 2.5, "g" => Function::new(|_| Ok(Value::from_int(42))));
@@ -1113,16 +1137,15 @@ pub fn gen_macros(rec: &mut Recorder, _rng: &mut StdRng, _n: usize) {
                    entry("x", false, Value::Float(2.5)), entry("g", true, Value::Int(42))], r, &c);
     // 4. the empty map
     let r: Result<HashMapContext<DefaultNumericTypes>, E> = context_map! {};
-    let c = r.unwrap();
-    emit(rec, vec![], Ok(()), &c);
+    created(rec, vec![], r);
     // 5. math_consts_context!: all constants of core::f64::consts, and a selection
     use core::f64::consts as k;
     let all = [("PI", k::PI), ("TAU", k::TAU), ("FRAC_PI_2", k::FRAC_PI_2), ("FRAC_PI_3", k::FRAC_PI_3), ("FRAC_PI_4", k::FRAC_PI_4),
                ("FRAC_PI_6", k::FRAC_PI_6), ("FRAC_PI_8", k::FRAC_PI_8), ("FRAC_1_PI", k::FRAC_1_PI), ("FRAC_2_PI", k::FRAC_2_PI),
                ("FRAC_2_SQRT_PI", k::FRAC_2_SQRT_PI), ("SQRT_2", k::SQRT_2), ("FRAC_1_SQRT_2", k::FRAC_1_SQRT_2), ("E", k::E),
                ("LOG2_10", k::LOG2_10), ("LOG2_E", k::LOG2_E), ("LOG10_2", k::LOG10_2), ("LOG10_E", k::LOG10_E), ("LN_2", k::LN_2), ("LN_10", k::LN_10)];
-    let c: HashMapContext<DefaultNumericTypes> = math_consts_context!().unwrap();
-    emit(rec, all.iter().map(|(n, v)| entry(n, false, Value::Float(*v))).collect(), Ok(()), &c);
-    let c: HashMapContext<DefaultNumericTypes> = math_consts_context!(E, PI).unwrap();
-    emit(rec, vec![entry("E", false, Value::Float(k::E)), entry("PI", false, Value::Float(k::PI))], Ok(()), &c);
+    let r: Result<HashMapContext<DefaultNumericTypes>, E> = math_consts_context!();
+    created(rec, all.iter().map(|(n, v)| entry(n, false, Value::Float(*v))).collect(), r);
+    let r: Result<HashMapContext<DefaultNumericTypes>, E> = math_consts_context!(E, PI);
+    created(rec, vec![entry("E", false, Value::Float(k::E)), entry("PI", false, Value::Float(k::PI))], r);
 }
